@@ -37,6 +37,7 @@ def initial_files() -> T.Tuple[L.Files, L.Files]:
         'y': L.Spec('y', 'string', 'ytop'),
         'yc': L.Spec('yc', 'combo', 'a', choices=['a', 'b', 'c']),
         'ds': L.Spec('ds', 'string', 'ds0'),
+        'z': L.Spec('z', 'integer', '-2', min=-20, max=20),
     }
     sub = {
         'dt': L.Spec('dt', 'string', 'dt0'),
@@ -123,8 +124,11 @@ class Gen:
             lo = spec.min if spec.min is not None else 0
             hi = spec.max if spec.max is not None else lo + 1000
             if valid:
-                return str(r.randint(lo, hi))
-            return str(hi + r.randint(1, 9)) if r.random() < 0.6 else 'notanint'
+                return str(r.choice([lo, hi, 0]) if (r.random() < 0.2 and lo <= 0 <= hi) else r.randint(lo, hi))
+            x = r.random()
+            if x < 0.4 or spec.min is None:
+                return str(hi + r.randint(1, 9)) if x < 0.8 else 'notanint'
+            return str(lo - r.randint(1, 9)) if x < 0.8 else 'notanint'
         if spec.kind == 'combo':
             return r.choice(spec.choices or ['?']) if valid else 'zzz'
         if spec.kind == 'feature':
@@ -207,12 +211,37 @@ class Gen:
         if what == 'extend-top-yc':
             m.files['']['yc'].choices = ['a', 'b', 'c', 'd']
             return {'edit': 'extend', 'sub': '', 'name': 'yc', 'added': 'd'}
+        if what == 'grow-top':
+            self.__dict__['directed_snap'] = copy.deepcopy(m.files[''])
+            m.files['']['extra'] = L.Spec('extra', 'string', 'dflt')
+            m.files['']['c'].choices = list(m.files['']['c'].choices or []) + ['d']
+            return {'edit': 'add', 'sub': '', 'name': 'extra,c', 'kind': 'string+extend'}
+        if what == 'revert-top':
+            # the file is again byte for byte what it was when the directory was set up
+            m.files[''].clear()
+            m.files[''].update(self.__dict__['directed_snap'])
+            return {'edit': 'revert', 'sub': '', 'name': 'c', 'removed': ['extra']}
         raise AssertionError(what)
 
     def edit(self, m: L.Model) -> T.Dict[str, T.Any]:
         r = self.rng
         sub = r.choice(['', 'sub'])
         f = m.files[sub]
+        snaps = self.__dict__.setdefault('snaps', {'': [], 'sub': []})[sub]
+        # the option file goes BACK to exactly an earlier text (an undone edit): never one that would re-add a removed name
+        cands_back = [sn for sn in snaps if set(sn) <= set(f) and {n: (sp.kind, sp.default, sp.choices, sp.min, sp.max) for n, sp in sn.items()}
+                      != {n: (sp.kind, sp.default, sp.choices, sp.min, sp.max) for n, sp in f.items()}]
+        if cands_back and r.random() < 0.3:
+            sn = cands_back[-1] if r.random() < 0.7 else r.choice(cands_back)
+            removed = [n for n in f if n not in sn]
+            for n in removed:
+                m.dopts[sub].pop(n, None)
+            f.clear()
+            f.update(copy.deepcopy(sn))
+            getattr(m, 'absent', set()).discard(sub)
+            return {'edit': 'revert', 'sub': sub, 'name': ','.join(sorted(sn)) or '-', 'removed': removed}
+        snaps.append(copy.deepcopy(f))
+        del snaps[:-4]
         kinds = ['add', 'change-default', 'shrink', 'extend', 'range', 'add-choices', 'remove-choices']
         if len(f) > 1:
             kinds.append('remove')
@@ -310,7 +339,13 @@ class Gen:
             if kind == 'range' and sp.kind == 'integer':
                 k = L.key(sub, name)
                 cur = int(m.value(k)) if (m.st.configured and name in m.st.applied[sub]) else int(sp.default)
-                if r.random() < 0.6:
+                if r.random() < 0.3 and cur != 0 and (sp.min is None or sp.min <= 0) and (sp.max is None or sp.max >= 0):
+                    # the range now ENDS exactly at 0, on the side that excludes the current value
+                    if cur > 0:
+                        sp.max = 0
+                    else:
+                        sp.min = 0
+                elif r.random() < 0.6:
                     # exclude the current value
                     if cur - 1 >= (sp.min or 0) and r.random() < 0.5:
                         sp.max = cur - 1
@@ -321,7 +356,8 @@ class Gen:
                 else:
                     sp.max = (sp.max or 100) + 10
                 if not sp.valid(sp.default):
-                    sp.default = str(sp.min if sp.min is not None else 0)
+                    lo2, hi2 = sp.min, sp.max
+                    sp.default = str(lo2 if lo2 is not None else hi2 if hi2 is not None else 0)
                 return {'edit': 'range', 'sub': sub, 'name': name, 'min': sp.min, 'max': sp.max, 'default': sp.default}
         name = self.fresh('n')
         f[name] = L.Spec(name, 'string', self.fresh('d'))
@@ -519,7 +555,7 @@ def run_history(job: T.Tuple[int, int, str, T.Optional[T.List[dict]]]) -> dict:
                         if cur.kind in ('combo', 'array'):
                             cur.choices = None if (cur.choices is None or sp.choices is None) else sorted(set(cur.choices) | set(sp.choices))
                         if cur.kind == 'integer':
-                            cur.min, cur.max = 0, 1000
+                            cur.min, cur.max = -1000, 1000
                 write_files()
             inject = rng.random() < 0.1
             wassign: T.Dict[str, str] = {}
@@ -729,6 +765,15 @@ def main() -> int:
         # explicit value on a yielding option equal to its own default (documented since 1.8.0), then the parent moves
         [{'kind': 'setup', 'assign': {}}, {'kind': 'configure', 'assign': {'sub:y': 'ysub'}}, {'kind': 'configure', 'assign': {'y': 'moved'}},
          {'kind': 'reconfigure'}],
+    ]
+    directed += [
+        # the option file changes, a configure picks the change up, the file goes back to exactly its old text: the
+        # next commands must see the old declarations again (the option added in between vanishes, the extra choice too)
+        [{'kind': 'setup', 'assign': {}}, {'kind': 'edit', 'what': 'grow-top'}, {'kind': 'configure', 'assign': {'c': 'b'}},
+         {'kind': 'edit', 'what': 'revert-top'}, {'kind': 'configure', 'assign': {'s': 'again'}}, {'kind': 'configure', 'assign': {'c': 'd'}},
+         {'kind': 'reconfigure'}],
+        [{'kind': 'setup', 'assign': {}}, {'kind': 'edit', 'what': 'grow-top'}, {'kind': 'configure', 'assign': {'extra': 'seen'}},
+         {'kind': 'edit', 'what': 'revert-top'}, {'kind': 'configure', 'assign': {'b': 'true'}}, {'kind': 'configure', 'assign': {'i': '9'}}],
     ]
     jobs += [(900000 + i, len(sc), root, sc) for i, sc in enumerate(directed)]
     results = common.pmap(run_history, jobs, chk.jobs, timeout=3000)
